@@ -311,7 +311,7 @@ func returnsToDefault(t *tspace.Table, post ref.Row, why string) string {
 }
 
 func c07Child(r *ev.Run, batch int) {
-	cases := r.N(20, 160)
+	cases := r.N(20, 480)
 	txns := r.N(24, 40)
 	dir := wireScratch()
 	for ci := 0; ci < cases; ci++ {
